@@ -16,17 +16,17 @@ CLAIMS = {
  "C03": ("def-use / state-key analysis of tokenise's state dictionary",
          "Decides that the state dictionary carries every call-crossing variable under matching keys with defaults equal to detokenise's initial clock, derived capacity recomputed by the common formula, state written after the bar closing. Does not decide equality of outputs across partitions. Also: a bar holding a note is closed at the end of a call and an untouched bar is not (abstract interpretation over bar-time/has-note/capacity states), no shared mutable default state, concatenation of bars in order, dependency closure as in C01."),
  "C04": ("typestate abstract interpretation (disjunctive worlds), inductive over histories",
-         "Decides the staleness discipline for all histories by induction: every Sequence method maps each valid freshness state to a valid one, invalidates the other view after a content mutation, marks replaced views fresh, generators and external clients obey the protocol, no accessor leaks internal messages. Conversion values assumed."),
+         "Decides the staleness discipline for all histories by induction: every Sequence method maps each valid freshness state to a valid one, invalidates the other view after a content mutation, marks replaced views fresh, generators and external clients obey the protocol, no accessor leaks internal messages. Conversion values assumed. Also: the two message accessors are generator functions (the view is read when the iteration starts)."),
  "C05": ("key-domain analysis, grid-provenance abstract interpretation, per-type event counting",
          "Decides channel-aware bookkeeping, ascending index removal, grid provenance of every written time, retention of non-note events, final re-sort in quantise. Not nearest-choice, displacement bound or survival. Also decided as case tables: the bookkeeping of the main loop (kind x open? x recorded? x overlap?), the zero-length removal pass, candidate coverage per step size, the three comparisons with polarity and the empty-candidate fallback."),
  "C06": ("frame (effect) analysis + linear normal form + provenance",
          "Decides the frame (only note-off times change), that the new duration is symbolically the chosen allowed value drawn from a shrinking copy of the allowed list, per-channel scoping, pass-through of other events, shorten-only filter. Not the closest-fit arithmetic. Also: the whole path condition of the shorten-only filter, the pairing table (PAIR), the nearest-candidate helper."),
  "C07": ("key-domain analysis + accumulator discipline (per-type event counting)",
-         "Decides key-domain consistency of the open-note stacks, conservation of wait time (accumulator discipline), the in-force comparison of the signature filter, keep/skip structure. Not idempotence or sounding-set equality. Also: the keep/skip table by number of open notes incl. nesting count, accumulator init and reset-after-flush, component-wise signature comparison with polarity."),
+         "Decides key-domain consistency of the open-note stacks, conservation of wait time (accumulator discipline), the in-force comparison of the signature filter, keep/skip structure. Not idempotence or sounding-set equality. Also: the keep/skip table by number of open notes incl. nesting count, accumulator init and reset-after-flush, component-wise signature comparison with polarity. Also a frame rule: no attribute of an input message is written (every emitted wait is a new object)."),
  "C08": ("key-domain analysis, must-consume dataflow, linear identities, effect analysis",
          "Decides channel-aware open-note state, that deferred events are consumed on every path, that a cut wait conserves time, that re-struck notes copy channel/pitch/velocity, that the source is not written, piece count. Not piece durations or piano-roll equality. Also: the 9-row destination table (piece vs deferred queue, registration of open notes, round control), the typestate of the current piece, the work-list plumbing (front pop, end-of-input exit, [0:0] splice, hand-over of every non-empty piece, the unread rest)."),
  "C09": ("per-path event counting, def-use order, unit analysis, normal forms",
-         "Decides one bar per track per round on every path, Bar built from the signature that sized it, tick-unit integer bar length in normal form, look-up before clock advance, shorten-only re-quantisation, untouched inputs. Not durations or conservation. Also: round-control flag, the three outcomes of a split (remainder / placeholder / empty piece), consumption of applied signature events, default entry; and, by dependency closure, the rules of split, Bar.__init__, pad, normalise, quantise_note_lengths' filters, the pairing table, the conversions, plus VIEW on every Sequence wrapper reached."),
+         "Decides one bar per track per round on every path, Bar built from the signature that sized it, tick-unit integer bar length in normal form, look-up before clock advance, shorten-only re-quantisation, untouched inputs. Not durations or conservation. Also: round-control flag, the three outcomes of a split (remainder / placeholder / empty piece), consumption of applied signature events, default entry; and, by dependency closure, the rules of split, Bar.__init__, pad, normalise, quantise_note_lengths' filters, the pairing table, the conversions, plus VIEW on every Sequence wrapper reached. Also TAIL: split puts nothing into the fresh piece when the input runs out (the bar loop counts pieces to decide whether music remains)."),
  "C10": ("dimension (unit) analysis + rational normal forms + statement-order rules",
          "Decides unit-consistent capacity tests, capacity = numerator*4/denominator in the unit compared, the single leading signature rewrite after the rejection tests, pad argument in ticks, copy field coverage. Not the exact resulting duration. Also: only duration-below-capacity tests govern the pad, polarity and content of the two signature rejections, the duration measure (sum of waits / PPQN), dependency closure."),
  "C11": ("whole-program numeric-kind abstract interpretation (int/float), inductive",
